@@ -201,7 +201,7 @@ func (c *cconn) deliverNext(w *World) {
 	if done {
 		c.sendq = c.sendq[1:]
 		if h.pkt != nil {
-			w.rec(&Rec{Kind: "tx", C: c.cliIdx(), Conn: c.id, Node: c.node, Pkt: h.pkt, Op: opIdx(h.op)})
+			w.rec(&Rec{Kind: "tx", C: c.cliIdx(), Conn: c.id, Node: c.node, Pkt: h.pkt, Op: opIdx(h.op), Size: len(h.b)})
 		}
 		// coalesce following packets that are already due
 		if mode == 3 {
@@ -215,7 +215,7 @@ func (c *cconn) deliverNext(w *World) {
 				}
 				more = append(more, x.b...)
 				if x.pkt != nil {
-					w.rec(&Rec{Kind: "tx", C: c.cliIdx(), Conn: c.id, Node: c.node, Pkt: x.pkt, Op: opIdx(x.op)})
+					w.rec(&Rec{Kind: "tx", C: c.cliIdx(), Conn: c.id, Node: c.node, Pkt: x.pkt, Op: opIdx(x.op), Size: len(x.b)})
 				}
 				w.Faults["net.coalesce"]++
 			}
@@ -307,7 +307,7 @@ func (c *cconn) drain(w *World) {
 		}
 		pkts, err := c.parser.Feed(data)
 		for _, p := range pkts {
-			w.rec(&Rec{Kind: "rx", C: c.cliIdx(), Conn: c.id, Node: c.node, Pkt: p, Op: -1, Step: sg.Step})
+			w.rec(&Rec{Kind: "rx", C: c.cliIdx(), Conn: c.id, Node: c.node, Pkt: p, Op: -1, Step: sg.Step, Size: p.Size})
 			c.onPacket(w, p, sg.Step)
 		}
 		if err != nil {
